@@ -55,7 +55,7 @@ class SimOutcome:
 
 
 def run_sim(fn, *, policy, workers=1, trace_lines=True, rng_injector=None,
-            faults=None, max_steps=3_000_000, rng_log=True, extra_prefixes=(), watcher=None):
+            faults=None, max_steps=3_000_000, rng_log=True, extra_prefixes=(), watcher=None, trace_opcodes=False):
     """Run fn() under the simulator.  ``policy`` is a spec dict (see
     sched.make_policy).  Exceptions raised by the workload are captured in
     outcome.error; HarnessError propagates."""
@@ -63,7 +63,7 @@ def run_sim(fn, *, policy, workers=1, trace_lines=True, rng_injector=None,
     pol = _sched.make_policy(policy)
     sch = _sched.Scheduler(pol, trace_lines=trace_lines,
                            trace_prefixes=(PKG_DIR,) + tuple(extra_prefixes),
-                           max_steps=max_steps)
+                           max_steps=max_steps, trace_opcodes=trace_opcodes)
     out.sched = sch
     stats = _ex.ExecutorStats()
     out.exec_stats = stats
